@@ -88,21 +88,21 @@ theorem nM_cons (c : Ctx) (i : Nat) (l : List Nat) :
   simp [nM, List.countP_cons]
 
 /-- `c'` is `c` with the object at `t` replaced (`o ↦ o'`). -/
-structure Recol (c c' : Ctx) (t : Nat) (o o' : Obj) : Prop where
+structure AccRecol (c c' : Ctx) (t : Nat) (o o' : Obj) : Prop where
   get_t : c.heap.get t = some o
   heap : ∀ j, c'.heap.get j = if j = t then some o' else c.heap.get j
 
-theorem Recol.colOf_ne {c c' t o o'} (r : Recol c c' t o o') {j : Nat} (hj : j ≠ t) :
+theorem AccRecol.colOf_ne {c c' t o o'} (r : AccRecol c c' t o o') {j : Nat} (hj : j ≠ t) :
     colOf c' j = colOf c j := by
   unfold colOf; rw [r.heap]; simp [hj]
 
-theorem Recol.colOf_t {c c' t o o'} (r : Recol c c' t o o') : colOf c' t = some o'.color := by
+theorem AccRecol.colOf_t {c c' t o o'} (r : AccRecol c c' t o o') : colOf c' t = some o'.color := by
   unfold colOf; rw [r.heap]; simp
 
-theorem Recol.colOf_t0 {c c' t o o'} (r : Recol c c' t o o') : colOf c t = some o.color := by
+theorem AccRecol.colOf_t0 {c c' t o o'} (r : AccRecol c c' t o o') : colOf c t = some o.color := by
   unfold colOf; rw [r.get_t]; rfl
 
-theorem Recol.nM_mono {c c' t o o'} (r : Recol c c' t o o') (l : List Nat)
+theorem AccRecol.nM_mono {c c' t o o'} (r : AccRecol c c' t o o') (l : List Nat)
     (h : o.color ≠ .white → o'.color ≠ .white) : nM c l ≤ nM c' l := by
   apply countP_le_of_imp
   intro j _ hq
@@ -115,7 +115,7 @@ theorem Recol.nM_mono {c c' t o o'} (r : Recol c c' t o o') (l : List Nat)
     exact h hq
   · unfold isMk at hq ⊢; rw [r.colOf_ne hj]; exact hq
 
-theorem Recol.nM_up {c c' t o o'} (r : Recol c c' t o o') (l : List Nat) (ht : t ∈ l)
+theorem AccRecol.nM_up {c c' t o o'} (r : AccRecol c c' t o o') (l : List Nat) (ht : t ∈ l)
     (h0 : o.color = .white) (h1 : o'.color ≠ .white) : nM c l + 1 ≤ nM c' l := by
   apply countP_lt_of_imp l _ t ht
   · unfold isMk; rw [r.colOf_t]; simp [h1]
@@ -125,7 +125,7 @@ theorem Recol.nM_up {c c' t o o'} (r : Recol c c' t o o') (l : List Nat) (ht : t
     · subst hj; unfold isMk at hq; rw [r.colOf_t0] at hq; simp [h0] at hq
     · unfold isMk at hq ⊢; rw [r.colOf_ne hj]; exact hq
 
-theorem Recol.nB_mono {c c' t o o'} (r : Recol c c' t o o') (l : List Nat)
+theorem AccRecol.nB_mono {c c' t o o'} (r : AccRecol c c' t o o') (l : List Nat)
     (h : o.color = .black → o'.color = .black) : nB c l ≤ nB c' l := by
   apply countP_le_of_imp
   intro j _ hq
@@ -138,7 +138,7 @@ theorem Recol.nB_mono {c c' t o o'} (r : Recol c c' t o o') (l : List Nat)
     exact h hq
   · unfold isBlk at hq ⊢; rw [r.colOf_ne hj]; exact hq
 
-theorem Recol.nB_up {c c' t o o'} (r : Recol c c' t o o') (l : List Nat) (ht : t ∈ l)
+theorem AccRecol.nB_up {c c' t o o'} (r : AccRecol c c' t o o') (l : List Nat) (ht : t ∈ l)
     (h0 : o.color ≠ .black) (h1 : o'.color = .black) : nB c l + 1 ≤ nB c' l := by
   apply countP_lt_of_imp l _ t ht
   · unfold isBlk; rw [r.colOf_t]; simp [h1]
@@ -148,7 +148,7 @@ theorem Recol.nB_up {c c' t o o'} (r : Recol c c' t o o') (l : List Nat) (ht : t
     · subst hj; unfold isBlk at hq; rw [r.colOf_t0] at hq; simp [h0] at hq
     · unfold isBlk at hq ⊢; rw [r.colOf_ne hj]; exact hq
 
-theorem Recol.nB_down {c c' t o o'} (r : Recol c c' t o o') (l : List Nat) (hnd : l.Nodup) :
+theorem AccRecol.nB_down {c c' t o o'} (r : AccRecol c c' t o o') (l : List Nat) (hnd : l.Nodup) :
     nB c l ≤ nB c' l + 1 := by
   apply countP_le_succ_of_imp t l hnd
   intro j _ hj hq
@@ -256,19 +256,19 @@ theorem LI.same {c c' : Ctx} (li : LI c) (pre : c'.pre = c.pre) (rest : c'.rest 
   refine ⟨by rw [pre, rest]; exact li.nodup, fun i => ?_⟩
   rw [pre, rest, alloc]; exact li.mem i
 
-theorem Recol.alloc {c c' t o o'} (r : Recol c c' t o o') (j : Nat) :
+theorem AccRecol.alloc {c c' t o o'} (r : AccRecol c c' t o o') (j : Nat) :
     (∃ x, c'.heap.get j = some x) ↔ ∃ x, c.heap.get j = some x := by
   rw [r.heap]
   by_cases hj : j = t
   · subst hj; simp [r.get_t]
   · simp [hj]
 
-theorem LI.recol {c c' t o o'} (li : LI c) (r : Recol c c' t o o') (pre : c'.pre = c.pre)
+theorem LI.recol {c c' t o o'} (li : LI c) (r : AccRecol c c' t o o') (pre : c'.pre = c.pre)
     (rest : c'.rest = c.rest) : LI c' := li.same pre rest r.alloc
 
 /-- One object changes colour in the mark phase, with the matching counter update. -/
 theorem MarkAcc.recol {c c' : Ctx} {t : Nat} {o o' : Obj} (li : LI c) (h : MarkAcc c)
-    (r : Recol c c' t o o') (pre : c'.pre = c.pre) (rest : c'.rest = c.rest)
+    (r : AccRecol c c' t o o') (pre : c'.pre = c.pre) (rest : c'.rest = c.rest)
     (e3 : c'.metrics.remembered = c.metrics.remembered) (e4 : c'.metrics.dropped = c.metrics.dropped)
     (e5 : c'.metrics.freed = c.metrics.freed)
     (hm : (c'.metrics.marked = c.metrics.marked ∧ (o.color ≠ .white → o'.color ≠ .white)) ∨
@@ -301,7 +301,7 @@ theorem trace_marked {c : Ctx} {t : Nat} {o : Obj} (ho : c.heap.get t = some o)
 
 theorem trace_unmarked {c : Ctx} {t : Nat} {o : Obj} (ho : c.heap.get t = some o)
     (hc : o.color = .white ∨ o.color = .whiteWeak) :
-    Recol c (c.trace t) t o { o with color := if o.needsTrace then .gray else .black } ∧
+    AccRecol c (c.trace t) t o { o with color := if o.needsTrace then .gray else .black } ∧
     (c.trace t).metrics = if o.color = .white then c.metrics.markGcMarked else c.metrics := by
   refine ⟨⟨ho, fun j => ?_⟩, ?_⟩
   · rcases hc with hc | hc <;> cases hnt : o.needsTrace <;> cases hl : o.live <;>
@@ -319,7 +319,7 @@ theorem traceWeak_nonwhite {c : Ctx} {t : Nat} {o : Obj} (ho : c.heap.get t = so
 
 theorem traceWeak_white {c : Ctx} {t : Nat} {o : Obj} (ho : c.heap.get t = some o)
     (hc : o.color = .white) :
-    Recol c (c.traceWeak t) t o { o with color := .whiteWeak } ∧
+    AccRecol c (c.traceWeak t) t o { o with color := .whiteWeak } ∧
     (c.traceWeak t).metrics = c.metrics.markGcMarked := by
   refine ⟨⟨ho, fun j => ?_⟩, ?_⟩ <;> simp [Ctx.traceWeak, ho, hc]
 
@@ -328,7 +328,7 @@ theorem makeGrayAgain_none {c : Ctx} {t : Nat} (h : c.heap.get t = none) :
   simp [Ctx.makeGrayAgain, h]
 
 theorem makeGrayAgain_some {c : Ctx} {t : Nat} {o : Obj} (ho : c.heap.get t = some o) :
-    Recol c (c.makeGrayAgain t) t o { o with color := .gray } ∧
+    AccRecol c (c.makeGrayAgain t) t o { o with color := .gray } ∧
     (c.makeGrayAgain t).metrics = c.metrics.markGcUntraced ∧
     (c.makeGrayAgain t).pre = c.pre ∧ (c.makeGrayAgain t).rest = c.rest ∧
     (c.makeGrayAgain t).phase = c.phase := by
@@ -411,7 +411,7 @@ theorem Silent.markPrim {c c' : Ctx} (s : Silent c c') : MarkPrim c c' :=
   ⟨s.phase, s.pre, s.rest, s.li, fun _ h => s.accSame.mark h, by rw [s.metrics]; exact MFrame.refl _,
    by rw [s.metrics], by rw [s.metrics]⟩
 
-theorem MarkPrim.ofRecol {c c' : Ctx} {t : Nat} {o o' : Obj} (r : Recol c c' t o o')
+theorem MarkPrim.ofRecol {c c' : Ctx} {t : Nat} {o o' : Obj} (r : AccRecol c c' t o o')
     (phase : c'.phase = c.phase) (pre : c'.pre = c.pre) (rest : c'.rest = c.rest)
     (mf : MFrame c.metrics c'.metrics) (total : c'.metrics.totalGcs = c.metrics.totalGcs)
     (e3 : c'.metrics.remembered = c.metrics.remembered) (e4 : c'.metrics.dropped = c.metrics.dropped)
